@@ -178,9 +178,9 @@ def runSched (j : Json) : Json :=
     !(sel.all (fun r => sumOf r / 3600 * η == (e.taskD t).effort) &&
       slots.all (fun i => sel.all (fun r =>
         usageOf (σ.led.get r i).usage t == usageOf (σ.led.get (sel.headD 0) i).usage t))))
-  -- C06.start_end_frame_bookings (both modes, single resource) and C06.team_framed (forward teams, every member)
+  -- C06.start_end_frame_bookings (both modes, single resource) and C06.team_framed (teams of one efficiency, both modes, every member)
   let framedPairs := eligSched.map (fun t => (t, (e.taskD t).alloc.headD 0)) ++
-    (teams.filter (fun t => (σ.tst t).forward)).flatMap (fun t => (e.taskD t).alloc.map (fun r => (t, r)))
+    teams.flatMap (fun t => (e.taskD t).alloc.map (fun r => (t, r)))
   let framedFail := framedPairs.filter (fun tr => !framedB e σ tr.1 tr.2)
   let fwds := (List.range e.tasks.size).filter (fun t => fwdEffB e t && (σ.tst t).scheduled && (σ.tst t).forward)
   let depPairs := fwds.flatMap (fun t => ((e.taskD t).allDeps.filter (fun dp => (e.taskD dp.target).leaf)).map (fun dp => (t, dp)))
